@@ -432,9 +432,8 @@ func (a *Activation) selectStmt(in *ssa.Select, st *State) *State {
 			a.timerFact(st, ch, chosen)
 		}
 	}
-	a.arith["select"]++
 	t.regArray("$g:sel", "(Array Int Int)")
-	t.set(st, "$g:sel", sApp("store", t.lookup(st, "$g:sel"), sInt(int64(a.arith["select"])), idx))
+	t.set(st, "$g:sel", sApp("store", t.lookup(st, "$g:sel"), sInt(int64(selectOrdinal(in))), idx))
 	a.env[in] = Val{K: KTuple, T: in.Type(), Fields: fields}
 	return st
 }
@@ -527,4 +526,18 @@ func (a *Activation) atomicModel(name string, args []Val, st *State, pos token.P
 		return st, []Val{boolVal(okc)}, true
 	}
 	return st, nil, false
+}
+
+// selectOrdinal: 1-based position of a select statement among the selects of its function, in source order.
+func selectOrdinal(in *ssa.Select) int {
+	fn := in.Parent()
+	n := 1
+	for _, b := range fn.Blocks {
+		for _, x := range b.Instrs {
+			if s, ok := x.(*ssa.Select); ok && s != in && s.Pos() < in.Pos() {
+				n++
+			}
+		}
+	}
+	return n
 }
